@@ -1,1 +1,162 @@
 // Kani contract harnesses for /repo/arrow-array/src/array/primitive_array.rs (child module: sees private items via super::)
+use super::*;
+#[path = "/verif/kani/support/spec.rs"]
+mod spec;
+use spec::*;
+use crate::types::Int32Type;
+use arrow_buffer::{BooleanBuffer, Buffer, NullBuffer, ScalarBuffer};
+
+/// number of cleared bits among bits [off, off+len) of a little-endian bitmap (naive loop: the Arrow
+/// definition of "null count")
+fn zeros(bm: &[u8], off: usize, len: usize) -> usize {
+    let mut n = 0;
+    let mut i = 0;
+    while i < len {
+        if !bit(bm, off + i) { n += 1; }
+        i += 1;
+    }
+    n
+}
+
+// Contract (C09, C01): PrimitiveArray::<Int32Type>::try_new(values, nulls) for a values buffer that is an
+// arbitrary window [voff, voff+VL) of a 4-element allocation and an optional validity bitmap that is an
+// arbitrary bit window [boff, boff+nlen) (boff < 8, nlen <= 8) of a 2-byte allocation:
+//   Ok  <=>  nulls is None  \/  nlen == VL                      (both directions)
+// and on Ok the array is well-formed and reads back the model: len == VL, value(i) == model[i],
+// is_null(i) <=> validity bit i is 0, is_valid(i) is its negation, null_count == number of 0 bits
+// (0 without a bitmap), nulls() is Some exactly when a bitmap was given.
+macro_rules! prim_try_new {
+    ($name:ident, $vl:expr) => {
+        #[kani::proof]
+        #[kani::unwind(10)]
+        #[kani::stub(alloc::fmt::format, stub_format)]
+        fn $name() {
+            const VL: usize = $vl;
+            let store: [i32; 4] = kani::any();
+            let voff: usize = kani::any();
+            kani::assume(voff <= 4 - VL);
+            let bm: [u8; 2] = kani::any();
+            let with_nulls: bool = kani::any();
+            let boff: usize = kani::any();
+            let nlen: usize = kani::any();
+            kani::assume(boff < 8 && nlen <= 8);
+            let values = ScalarBuffer::<i32>::new(Buffer::from_slice_ref(&store), voff, VL);
+            let nulls = if with_nulls {
+                Some(NullBuffer::new(BooleanBuffer::new(Buffer::from_slice_ref(&bm), boff, nlen)))
+            } else {
+                None
+            };
+            let r = PrimitiveArray::<Int32Type>::try_new(values, nulls);
+            assert!(r.is_ok() == (!with_nulls || nlen == VL));
+            if let Ok(a) = &r {
+                assert!(a.len() == VL);
+                assert!(a.values().len() == VL);
+                assert!(a.nulls().is_some() == with_nulls);
+                assert!(a.null_count() == if with_nulls { zeros(&bm, boff, VL) } else { 0 });
+                let mut i = 0;
+                while i < VL {
+                    assert!(a.value(i) == store[voff + i]);
+                    let null = with_nulls && !bit(&bm, boff + i);
+                    assert!(a.is_null(i) == null);
+                    assert!(a.is_valid(i) == !null);
+                    i += 1;
+                }
+            }
+            kani::cover!(r.is_ok() && with_nulls);
+            kani::cover!(r.is_ok() && !with_nulls);
+            kani::cover!(r.is_err());
+            std::mem::forget(r);
+        }
+    };
+}
+// @unit name=prim_try_new_len0 props=C09,C01 kind=bounded bound=values_len=0_of_4_any_window_bitmap_window<=8_bits_any_bit_offset<8 fns=PrimitiveArray::try_new,PrimitiveArray::value,PrimitiveArray::is_null,PrimitiveArray::null_count
+prim_try_new!(prim_try_new_len0, 0);
+// @unit name=prim_try_new_len1 props=C09,C01 kind=bounded bound=values_len=1_of_4_any_window_bitmap_window<=8_bits_any_bit_offset<8 fns=PrimitiveArray::try_new,PrimitiveArray::value,PrimitiveArray::is_null,PrimitiveArray::null_count
+prim_try_new!(prim_try_new_len1, 1);
+// @unit name=prim_try_new_len3 props=C09,C01 kind=bounded bound=values_len=3_of_4_any_window_bitmap_window<=8_bits_any_bit_offset<8 fns=PrimitiveArray::try_new,PrimitiveArray::value,PrimitiveArray::is_null,PrimitiveArray::null_count
+prim_try_new!(prim_try_new_len3, 3);
+// @unit name=prim_try_new_len4 props=C09,C01 kind=bounded bound=values_len=4_of_4_bitmap_window<=8_bits_any_bit_offset<8 fns=PrimitiveArray::try_new,PrimitiveArray::value,PrimitiveArray::is_null,PrimitiveArray::null_count
+prim_try_new!(prim_try_new_len4, 4);
+
+// Contract (C01, C02): for an Int32 array of 4 rows (values and validity bits symbolic, validity optional,
+// bitmap stored at bit offset BOFF) and the window (OFF, LEN) of the instance, slice(OFF, LEN) is a
+// well-formed array that denotes exactly rows [OFF, OFF+LEN) of the model: len, value(i), is_null(i),
+// is_valid(i); null_count is recomputed exactly for the window; the parent is unchanged (frame).
+macro_rules! prim_slice {
+    ($name:ident, $off:expr, $len:expr, $boff:expr) => {
+        #[kani::proof]
+        #[kani::unwind(10)]
+        #[kani::stub(alloc::fmt::format, stub_format)]
+        fn $name() {
+            const N: usize = 4;
+            const OFF: usize = $off;
+            const LEN: usize = $len;
+            const BOFF: usize = $boff;
+            let store: [i32; N] = kani::any();
+            let bm: [u8; 2] = kani::any();
+            let with_nulls: bool = kani::any();
+            let nulls = if with_nulls {
+                Some(NullBuffer::new(BooleanBuffer::new(Buffer::from_slice_ref(&bm), BOFF, N)))
+            } else {
+                None
+            };
+            // input array built with the unchecked constructor (lengths agree by construction); `new` = try_new().unwrap()
+            // is avoided on purpose: its unwrap path alone costs > 600 s under CBMC (measured)
+            let a = unsafe { PrimitiveArray::<Int32Type>::new_unchecked(ScalarBuffer::new(Buffer::from_slice_ref(&store), 0, N), nulls) };
+            let s = a.slice(OFF, LEN);
+            assert!(s.len() == LEN);
+            assert!(s.nulls().is_some() == with_nulls);
+            assert!(s.null_count() == if with_nulls { zeros(&bm, BOFF + OFF, LEN) } else { 0 });
+            let mut i = 0;
+            while i < LEN {
+                assert!(s.value(i) == store[OFF + i]);
+                let null = with_nulls && !bit(&bm, BOFF + OFF + i);
+                assert!(s.is_null(i) == null && s.is_valid(i) == !null);
+                i += 1;
+            }
+            // frame: parent still reads the whole model
+            assert!(a.len() == N);
+            let j: usize = kani::any();
+            kani::assume(j < N);
+            assert!(a.value(j) == store[j]);
+            assert!(a.is_null(j) == (with_nulls && !bit(&bm, BOFF + j)));
+            kani::cover!(with_nulls && a.null_count() > 0 && a.null_count() < N);
+            kani::cover!(with_nulls && s.null_count() == LEN);
+            kani::cover!(!with_nulls);
+            std::mem::forget(s);
+            std::mem::forget(a);
+        }
+    };
+}
+// @unit name=prim_slice_0_4 props=C01,C02 kind=bounded bound=rows=4_window=(0,4)_bitmap_bit_offset=0 fns=PrimitiveArray::slice,PrimitiveArray::value,PrimitiveArray::is_null,PrimitiveArray::null_count
+prim_slice!(prim_slice_0_4, 0, 4, 0);
+// @unit name=prim_slice_1_2 props=C01,C02 kind=bounded bound=rows=4_window=(1,2)_bitmap_bit_offset=5 fns=PrimitiveArray::slice,PrimitiveArray::value,PrimitiveArray::is_null,PrimitiveArray::null_count
+prim_slice!(prim_slice_1_2, 1, 2, 5);
+// @unit name=prim_slice_1_3 props=C01,C02 kind=bounded bound=rows=4_window=(1,3)_bitmap_bit_offset=0 fns=PrimitiveArray::slice,PrimitiveArray::value,PrimitiveArray::is_null,PrimitiveArray::null_count tier=thorough note=not_confirmed_at_checkpoint
+prim_slice!(prim_slice_1_3, 1, 3, 0);
+// @unit name=prim_slice_3_1 props=C01,C02 kind=bounded bound=rows=4_window=(3,1)_bitmap_bit_offset=5 fns=PrimitiveArray::slice,PrimitiveArray::value,PrimitiveArray::is_null,PrimitiveArray::null_count tier=thorough note=not_confirmed_at_checkpoint
+prim_slice!(prim_slice_3_1, 3, 1, 5);
+// @unit name=prim_slice_4_0 props=C01,C02 kind=bounded bound=rows=4_window=(4,0)_bitmap_bit_offset=3 fns=PrimitiveArray::slice,PrimitiveArray::value,PrimitiveArray::is_null,PrimitiveArray::null_count tier=thorough note=not_confirmed_at_checkpoint
+prim_slice!(prim_slice_4_0, 4, 0, 3);
+
+// Contract (C01): value(i) on an index >= len is rejected by a checked panic (may-reject): the line
+// after the call is reached only for i < len, so there is no unchecked read past the window of a slice
+// even though the parent allocation is larger.
+// @unit name=prim_value_oob_rejected props=C01,C09 kind=bounded bound=rows=4_all_windows mayreject=1 fns=PrimitiveArray::value
+#[kani::proof]
+#[kani::unwind(10)]
+#[kani::stub(alloc::fmt::format, stub_format)]
+fn prim_value_oob_rejected() {
+    let store: [i32; 4] = kani::any();
+    let a = unsafe { PrimitiveArray::<Int32Type>::new_unchecked(ScalarBuffer::new(Buffer::from_slice_ref(&store), 0, 4), None) };
+    let off: usize = kani::any();
+    let len: usize = kani::any();
+    kani::assume(off <= 4 && len <= 4 - off);
+    let s = a.slice(off, len);
+    let i: usize = kani::any();
+    let v = s.value(i);
+    assert!(i < len && v == store[off + i]);
+    kani::cover!(i + 1 == len && off > 0);
+    std::mem::forget(s);
+    std::mem::forget(a);
+}
